@@ -272,6 +272,8 @@ def c18(proj, rep, tier):
     rep.floor('K2 true divisions in catalogue modules', n, 100)
     n = numeric.f1(proj, rep, mods)
     rep.floor('F1 log sites in catalogue modules', n, 10)
+    n = kdefects.rd1(proj, rep, None)
+    rep.floor('RD1 return_dm constructors', n, 2)
     nf, ns = masks.ms1(proj, rep, {k: v for k, v in MS1_FUNCS.items() if 'state._internal' in k})
     rep.floor('MS1 sites in the closed-form Werner / isotropic EOF', ns, 10)
 
@@ -289,7 +291,7 @@ def c20(proj, rep, tier):
 
 
 def dev(proj, rep, tier):
-    print(manifold.rb1(proj, rep))
+    print(kdefects.rd1(proj, rep, None))
 
 
 PROPS = {'C01': c01, 'C02': c02, 'C06': c06, 'C08': c08, 'C13': c13, 'C12': c12, 'C15': c15, 'C16': c16, 'C03': c03, 'C04': c04, 'C05': c05, 'C07': c07, 'C19': c19, 'C10': c10, 'C11': c11, 'C18': c18, 'C20': c20, 'DEV': dev}
